@@ -90,7 +90,7 @@ structure Cfg where
 def replaceTab1 (s : Str) : Str := replaceFirst ['\t'] [' ', ' ', ' ', ' '] s
 
 /-- BlockCode.start -/
-def blockCodeStart (line : Str) : Bool := startsWith [' ', ' ', ' ', ' '] (replaceTab1 line)
+def blockCodeStart (line : Str) : Bool := !isBlank line && startsWith [' ', ' ', ' ', ' '] (replaceTab1 line)
 
 /-- BlockCode.strip -/
 def blockCodeStrip : Str → Nat → Str
@@ -321,7 +321,7 @@ def blockCodeLoop : Nat → FW → List Str → Nat → List Str × Nat × FW
       let fw1 := fw.next
       if isBlank l.s then
         let piece := if l.s.length < 5 then lstripSp l.s else l.s.drop 4
-        blockCodeLoop fuel fw1 (piece :: buf) (if l.s == ['\n'] then tb + 1 else 0)
+        blockCodeLoop fuel fw1 (piece :: buf) (tb + 1)
       else if !blockCodeStart l.s then (buf, tb, fw1.backstep)
       else blockCodeLoop fuel fw1 (blockCodeStrip l.s 0 :: buf) 0
 
